@@ -76,7 +76,7 @@ class SelfInstruction(MichelsonInstruction, prim='SELF'):
         self_type = get_entrypoint_type(context, entrypoint)
         assert self_type, f'parameter type is not defined'
         self_address = context.get_self_address()
-        res_type = ContractType.create_type(args=[self_type])
+        res_type = ContractType.create_type(args=[self_type.get_anon_type()])
         res = res_type.from_value(f'{self_address}%{entrypoint}')  # type: ignore
         stack.push(res)
         stdout.append(format_stdout(cls.prim, [], [res]))  # type: ignore
